@@ -8,3 +8,15 @@ def run(res, tier, seed):
     if out:
         impl, dis = out
         Y.report(res, dis, impl, seed, tier, only_fmg=True, prop_filter=('fmg-two-level-start',))
+    # the FMG starting approximation across object histories (K-history of C13, FMG configurations only)
+    outr = Y.run_trace(res, tier, seed, mode='reuse')
+    if outr:
+        implr, _ = outr
+        lines = [l for l in implr.split('\n') if l.startswith('PROP fmg-start-after-history')]
+        res.coverage['fmg_start_after_history'] = len(lines)
+        for l in lines:
+            if not l.rstrip().endswith('=> ok'):
+                res.violation('fmg-start-depends-on-history', {
+                    'what': l[:700], 'history': l.split('history=')[1].split()[0], 'seed': seed,
+                    'replay_cmd': 'VERIF_SEED=%d VERIF_TIER=%s build/harness/h_solver reuse' % (seed, tier)})
+                break
